@@ -89,7 +89,8 @@ type runner struct {
 	evs      []mev            // Enqueue returns and handler starts, in real order (one thread runs at a time)
 }
 
-// mev is one entry of the order log: kind 0 = Enqueue(sys,id) returned, 1 = the handler of (sys,id) started.
+// mev is one entry of the order log: kind 0 = Enqueue(sys,id) returned, 1 = the handler of (sys,id) started,
+// 2 = Pause returned, 3 = Resume called, 4 = Resume returned.
 type mev struct {
 	kind int
 	sys  bool
@@ -119,8 +120,11 @@ func (r *runner) do(o op) {
 		r.evs = append(r.evs, mev{0, o.sys, o.msg})
 	case opPause:
 		r.mb.Pause()
+		r.evs = append(r.evs, mev{kind: 2})
 	case opResume:
+		r.evs = append(r.evs, mev{kind: 3})
 		r.mb.Resume()
+		r.evs = append(r.evs, mev{kind: 4})
 	}
 }
 
@@ -264,6 +268,36 @@ func (h *H) emit(cfg config, res result) {
 		}
 		if users > 1 {
 			h.o.Monitor("c02-user-overtakes-system", in, fmt.Sprintf("%d user messages were handled after Enqueue of system message %d had returned and before it was handled (at most 1 allowed)", users, e.id))
+		}
+	}
+	// paused (C01): once Pause has returned and until the next Resume is called, at most ONE more user handler may
+	// start (the user message the consumer had already popped); skipped when a Resume was in flight at that moment
+	for i, e := range res.evs {
+		if e.kind != 2 {
+			continue
+		}
+		inflight := 0
+		for _, f := range res.evs[:i] {
+			if f.kind == 3 {
+				inflight++
+			} else if f.kind == 4 {
+				inflight--
+			}
+		}
+		if inflight > 0 {
+			continue
+		}
+		users := 0
+		for _, f := range res.evs[i+1:] {
+			if f.kind == 3 {
+				break
+			}
+			if f.kind == 1 && !f.sys {
+				users++
+			}
+		}
+		if users > 1 {
+			h.o.Monitor("c01-user-handled-while-paused", in, fmt.Sprintf("%d user messages were handled after Pause had returned and before any Resume was called (at most 1 allowed)", users))
 		}
 	}
 	if res.overrun {
